@@ -113,7 +113,10 @@ def template(items, rng):
             mt = toks[pi]
             nm = newname(keys)
             lit = mt.group(0)
-            same = [b for b in variables if b[1].strip() == lit]
+            # a chained reference is resolved in the section that uses the outer variable (configparser
+            # interpolates default-section values there), so it may only name variables that cannot be
+            # shadowed by a key of some section: the plainly named ones
+            same = [b for b in variables if b[1].strip() == lit and b[0] not in TRICKY]
             if rng.random() < 0.3 and same:
               variables.append((nm, "${%s}" % rng.choice(same)[0]))   # a variable defined through another variable
             else:
